@@ -39,17 +39,43 @@ if os.environ.get("PEST_DRIVER"):            # test hook: a driver binary other 
 
 THEOREMS = {
     "C10": [
-        "Pest.C10.parse_roundtrip",
-        "Pest.C10.scan_roundtrip",
         "Pest.C10.front_roundtrip",
+        "Pest.C10.scan_roundtrip",
+        "Pest.C10.parse_roundtrip",
+        "Pest.C10.parse_expression_roundtrip",
+        "Pest.C10.den_seq_then_choice",
+        "Pest.C10.den_choice_then_seq",
+        "Pest.C10.den_seq_chain",
+        "Pest.C10.den_choice_chain",
+        "Pest.C10.den_one",
+        "Pest.C10.den_prefix_postfix",
+        "Pest.C10.den_paren_tag",
+        "Pest.C10.den_bounds",
+        "Pest.Front.scan_roundtrip",
+        "Pest.Front.PRT.parseTokens_roundtrip",
+        "Pest.Front.PRT.recOK",
     ],
     "C11": [
         "Pest.C11.front_total",
+        "Pest.C11.front_ok_or_error",
         "Pest.C11.front_error_position",
-        "Pest.C11.error_context_total",
-        "Pest.C11.gec_lines_partition",
-        "Pest.C11.error_context_exists",
         "Pest.C11.front_error_renders",
+        "Pest.C11.error_context_total",
+        "Pest.C11.error_context_exists",
+        "Pest.C11.error_context_col_lt",
+        "Pest.C11.gec_lines_partition",
+        "Pest.C11.scan_no_oof",
+        "Pest.C11.scan_no_exc",
+        "Pest.C11.scan_error_position",
+        "Pest.C11.scan_tokens_ok",
+        "Pest.C11.number_token_digits",
+        "Pest.C11.integer_token_int",
+        "Pest.C11.char_token_unescapes",
+        "Pest.C11.skipTrivia_done",
+        "Pest.C11.parse_no_oof",
+        "Pest.C11.parse_no_exc",
+        "Pest.C11.parse_error_token",
+        "Pest.C11.parse_error_position",
     ],
 }
 
@@ -318,7 +344,9 @@ def check_total(text: str, optimized: bool):
         return {"class": "context-raises:" + type(e2).__name__, "observed": f"_error_context raised {type(e2).__name__}",
                 "expected": "a line and a column"}
     lines = ref_lines(text)
+    # the column is inside the line (line break included); only the end of the text is one past its last line
     ok = 1 <= lineno <= len(lines) and 0 <= col <= len(lines[lineno - 1]) and \
+        (col < len(lines[lineno - 1]) or lineno == len(lines)) and \
         sum(len(x) for x in lines[: lineno - 1]) + col == tok.start
     if not ok:
         return {"class": "line-col", "observed": f"{lineno}:{col} for a token starting at offset {tok.start}",
@@ -612,9 +640,9 @@ def build_texts(prop: str, tier: str, sd: int) -> tuple[list[str], dict]:
     src: dict[str, list[str]] = collections.OrderedDict()
     src["bundled grammars"] = list(files.values())
     src["special texts (empty, blank, comment-only, every prefix of a grammar using every construct)"] = special_texts()
-    sent = sentences(rng, 6000 if thorough else 700)
+    sent = sentences(rng, (20000 if prop == "C10" else 6000) if thorough else 2000)
     src["sentences derived from the meta-grammar (random walk, trivia at every legal place)"] = sent
-    pa = printed_asts(rng, 1500 if thorough else 150)
+    pa = printed_asts(rng, (5000 if prop == "C10" else 1500) if thorough else 400)
     src["printed random ASTs (gen_grammar.show_grammar / show_grammar_min)"] = pa
     muts = []
     for s in sent + pa:
@@ -624,7 +652,7 @@ def build_texts(prop: str, tier: str, sd: int) -> tuple[list[str], dict]:
     small = [t for t in files.values() if len(t) < 3000] if not thorough else list(files.values())
     bm = []
     for t in files.values():
-        bm += token_mutants(rng, t, 400 if thorough else 25)
+        bm += token_mutants(rng, t, 400 if thorough else 60)
     if prop == "C11":
         if thorough:
             for t in files.values():
@@ -632,14 +660,14 @@ def build_texts(prop: str, tier: str, sd: int) -> tuple[list[str], dict]:
                 bm += list(all_char_mutants(t)) if len(t) < 1200 else char_mutants(rng, t, 15000)
         else:
             for t in files.values():
-                bm += [t[: rng.randrange(len(t) + 1)] for _ in range(60)]
-                bm += char_mutants(rng, t, 80)
+                bm += [t[: rng.randrange(len(t) + 1)] for _ in range(150)]
+                bm += char_mutants(rng, t, 250)
     else:
         for t in small:
-            bm += char_mutants(rng, t, 1500 if thorough else 40)
-            bm += [t[: rng.randrange(len(t) + 1)] for _ in range(100 if thorough else 10)]
+            bm += char_mutants(rng, t, 8000 if thorough else 150)
+            bm += [t[: rng.randrange(len(t) + 1)] for _ in range(500 if thorough else 30)]
     src["truncations, single-character and single-token mutations of the bundled grammars"] = bm
-    src["character and token soups over the grammar alphabet"] = soups(rng, 60000 if thorough else 4000)
+    src["character and token soups over the grammar alphabet"] = soups(rng, (200000 if prop == "C10" else 60000) if thorough else 12000)
     if prop == "C11":
         src["deep nesting (parentheses, prefix and postfix chains, PUSH, comments, long sequences)"] = deep_texts()
     texts, seen, counts = [], set(), {}
@@ -666,17 +694,33 @@ def _limit():
         pass
 
 
-def _corr_f(texts: list[str]):
-    """(number compared, mismatches) of the implementation against the Lean `F` request"""
+def _corr_f(texts: list[str], contexts: bool = False):
+    """(number compared, mismatches) of the implementation against the Lean model: the `F` request (accept /
+    rule table / error kind and start) and, with `contexts`, `GC` (the line, column and source line
+    _error_context reports for the error token)"""
     im = impl()
     big = [t for t in texts if len(t) <= 12000]
-    answers = run_driver([im.f_request(t) for t in big], shards=1)
-    mism = []
-    for t, a in zip(big, answers):
+    reqs, exp = [], []
+    for t in big:
         i = im.f_answer(t)
-        if i != a and not (i == "exc RecursionError"):
-            mism.append({"text": cps(t), "impl": i[:400], "model": a[:400]})
-    return len(big), mism
+        if i == "exc RecursionError":
+            continue
+        reqs.append(im.f_request(t))
+        exp.append((t, i))
+        if contexts and i.startswith("err ") and i.split()[2].isdigit():
+            start = int(i.split()[2])
+            try:
+                ctx = im.GErr("x")._error_context(t, start)  # noqa: SLF001
+                exp.append((t, f"{ctx[0]} {ctx[1]} {enc(ctx[3])}"))
+            except Exception as e:  # noqa: BLE001
+                exp.append((t, "exc " + type(e).__name__))
+            reqs.append(f"GC {enc(t)} {start}")
+    answers = run_driver(reqs, shards=1)
+    mism = []
+    for (t, i), a, r in zip(exp, answers, reqs):
+        if i != a:
+            mism.append({"text": cps(t), "request": r.split(" ", 1)[0], "impl": i[:400], "model": a[:400]})
+    return len(reqs), mism
 
 
 def worker_c11(texts: list[str]):
@@ -692,7 +736,7 @@ def worker_c11(texts: list[str]):
                 bads.append({"text": cps(t), "optimizer": "default" if optimized else "none", **bad})
         if impl().load(t, False)[0] == "err":
             nerr += 1
-    ncorr, mism = _corr_f(texts)
+    ncorr, mism = _corr_f(texts, contexts=True)
     return {"evals": n, "errors": nerr, "bads": bads[:200], "nbad": len(bads), "ncorr": ncorr, "corr": mism[:20], "ncorr_bad": len(mism)}
 
 
@@ -881,6 +925,12 @@ def replay(out: Outcome, payload: dict) -> None:
         if bad and not any(k["match"](text, bad) for k in known_for("C11") if "match" in k):
             out.violation({**{k: payload[k] for k in ("kind", "text", "text_repr", "optimizer") if k in payload}, **bad,
                            "command": f"./check {out.prop} --replay <this file>"})
+    elif kind == "correspondence":
+        n, mism = _corr_f([text], contexts=True)
+        if mism:
+            c = mism[0]
+            out.unproved({"kind": "correspondence", "text": payload["text"], "text_repr": payload.get("text_repr", ""),
+                          "broken": f"correspondence {c['request']} " + enc(text)[:300], "model_answer": c["model"], "code_answer": c["impl"]})
     elif kind == "syntax":
         a = ask_oracle([text])[0]
         v, detail = judge_c10(text, a, lambda: ask_oracle([text], balanced=True)[0])
@@ -917,9 +967,9 @@ def replay_known(out: Outcome, prop: str) -> None:
 
 def run(out: Outcome) -> None:
     prop = out.prop
+    info = proof_stage(out, prop, THEOREMS[prop])      # before _limit(): lake/lean need their address space
     _limit()
     impl()
-    info = proof_stage(out, prop, THEOREMS[prop])
     if not info.get("driver_ok") and not os.environ.get("PEST_DRIVER"):
         out.infra_error = "Lean driver does not build: " + "; ".join(info.get("broken", []))[:400]
         out.coverage = {"explanation": "driver build failed", "evaluations": 1, "distinct_nontrivial": 2}
@@ -1007,7 +1057,8 @@ def run(out: Outcome) -> None:
         corr.sort(key=lambda c: len(c["text"]))
         if corr:
             c = corr[0]
-            out.unproved({"broken": "correspondence F " + enc(uncps(c["text"]))[:300], "text_repr": repr(uncps(c["text"]))[:300],
+            out.unproved({"kind": "correspondence", "text": c["text"],
+                          "broken": f"correspondence {c.get('request', 'F')} " + enc(uncps(c["text"]))[:300], "text_repr": repr(uncps(c["text"]))[:300],
                           "model_answer": c["model"], "code_answer": c["impl"], "more": [repr(uncps(x["text"]))[:120] for x in corr[1:5]],
                           "searched": {"cases": len(texts), "note": "the direct search found no failing text on the implementation"}})
         elif transcription:
